@@ -60,10 +60,12 @@ func (t *TransactionManager) CleanupTransaction(id string) error {
 func (t *TransactionManager) Confirm(id string) error {
 	t.tmMutex.Lock()
 	defer t.tmMutex.Unlock()
-	if t.transaction == nil {
-		return fmt.Errorf("no ongoing transaction")
+	// the id must match the ongoing transaction before anything is done to it
+	trans, err := t.GetTransaction(id)
+	if err != nil {
+		return err
 	}
-	err := t.transaction.Confirm()
+	err = trans.Confirm()
 	if err != nil {
 		return err
 	}
@@ -73,12 +75,14 @@ func (t *TransactionManager) Confirm(id string) error {
 func (t *TransactionManager) Cancel(ctx context.Context, id string) error {
 	t.tmMutex.Lock()
 	defer t.tmMutex.Unlock()
-	if t.transaction == nil {
-		return fmt.Errorf("no ongoing transaction")
+	// the id must match the ongoing transaction before anything is done to it
+	trans, err := t.GetTransaction(id)
+	if err != nil {
+		return err
 	}
-	rollbacktransAction := t.transaction.GetRollbackTransaction()
+	rollbacktransAction := trans.GetRollbackTransaction()
 
-	_, err := t.rollbacker.TransactionRollback(ctx, rollbacktransAction, false)
+	_, err = t.rollbacker.TransactionRollback(ctx, rollbacktransAction, false)
 	if err != nil {
 		return err
 	}
